@@ -19,8 +19,8 @@ PROPERTY = "C19"
 LEVEL = "fault_enumeration"
 RULE = (
     "Fault scripts are sequences over the alphabet {healthy keep-alive, healthy then close, refuse (listener closed for that call), close before "
-    "reply, reset (SO_LINGER 0), 503 with Content-Length and body, 500 without length then close, bodiless 502, truncated body, empty 200, non-JSON "
-    "200} followed by three healthy actions; all scripts of length <= 2 (quick) / <= 3 (thorough) are enumerated on TCP and on a Unix socket, longer "
+    "reply, reset (SO_LINGER 0), 503 with Content-Length and body, 500 without length then close, bodiless 502 then close, truncated body, empty "
+    "200, non-JSON 200, 202 with a valid JSON-RPC body, bodiless 204 and 304 on a kept-alive connection, 503 with a chunked body} followed by three healthy actions; all scripts of length <= 2 (quick) / <= 3 (thorough) are enumerated on TCP and on a Unix socket, longer "
     "ones (<= 6 quick, <= 9 thorough) are drawn by Hypothesis. A scripted peer consumes one action per received request (per call for 'refuse'), so "
     "the transparent retry of xmlrpc.client.Transport.request is accounted for; every call of one ServerProxy sends a unique token and healthy "
     "replies echo the token of the request they answer. Oracle: each call returns exactly its own token or raises; when the last action a call "
@@ -31,13 +31,16 @@ RULE = (
 ASSUMPTIONS = [
     "faults are produced by a cooperating local peer on loopback TCP / Unix sockets; timing is the operating system's",
     "a call whose last consumed action is a healthy reply must return its token; other non-status faults must raise some exception (type not prescribed)",
+    "the call that follows an undrained non-200 reply on a kept-alive connection (204, 304, chunked body) may fail whatever the peer answers: it is the 'one further call' the statement allows",
     "R11: a call that does not return within 30 s makes the case inconclusive (skipped and counted), not a violation",
 ]
-EXHAUSTIVE = ["all fault scripts of length <= 2 (quick) / <= 3 (thorough) over the 11-action alphabet, on TCP and Unix sockets"]
+EXHAUSTIVE = ["all fault scripts of length <= 2 (quick) / <= 3 (thorough) over the 15-action alphabet, on TCP and Unix sockets"]
 
-ALPHA = ["ok_ka", "ok_close", "refuse", "close_noreply", "reset", "st_cl", "st_nolen_close", "st_bodiless", "trunc", "empty200", "nonjson"]
-STATUS = {"st_cl": 503, "st_nolen_close": 500, "st_bodiless": 502}
+ALPHA = ["ok_ka", "ok_close", "refuse", "close_noreply", "reset", "st_cl", "st_nolen_close", "st_bodiless", "trunc", "empty200", "nonjson",
+         "st_202_body", "st_204_ka", "st_304_ka", "st_chunked"]
+STATUS = {"st_cl": 503, "st_nolen_close": 500, "st_bodiless": 502, "st_202_body": 202, "st_204_ka": 204, "st_304_ka": 304, "st_chunked": 503}
 HEALTHY = ("ok_ka", "ok_close")
+UNDRAINED = ("st_204_ka", "st_304_ka", "st_chunked")
 
 
 class Peer(object):
@@ -146,6 +149,17 @@ class Peer(object):
                 elif act == "st_bodiless":
                     c.sendall(b"HTTP/1.1 502 Bad\r\n\r\n")
                     return
+                elif act == "st_202_body":
+                    # a non-200 status carrying a perfectly valid JSON-RPC body
+                    send(b"202 Accepted", good)
+                elif act == "st_204_ka":
+                    # bodiless by definition, connection kept alive
+                    c.sendall(b"HTTP/1.1 204 No Content\r\n\r\n")
+                elif act == "st_304_ka":
+                    c.sendall(b"HTTP/1.1 304 Not Modified\r\n\r\n")
+                elif act == "st_chunked":
+                    payload = b"sorry " + good
+                    c.sendall(b"HTTP/1.1 503 Busy\r\nTransfer-Encoding: chunked\r\n\r\n" + b"%x\r\n" % len(payload) + payload + b"\r\n0\r\n\r\n")
                 elif act == "trunc":
                     c.sendall(b"HTTP/1.1 200 OK\r\nContent-Length: %d\r\n\r\n" % (len(good) + 10) + good[:5])
                     return
@@ -228,9 +242,11 @@ def run_script(peer, script, tail=3):
             except Exception as ex:
                 rec["outcome"] = "raised"
                 rec["exc"] = ex
+            if rec["outcome"] != "returned":
+                # a request may have been sent without waiting for its reply: let the
+                # peer finish reading it before the script is handed over again
+                settle(peer)
             used = peer.consumed[before:]
-            rec["consumed"] = [a for a, _ in used]
-            rec["consumed_tokens"] = [t for _, t in used]
             for _ in used:
                 if pending and pending[0] != "refuse":
                     pending.popleft()
@@ -244,7 +260,27 @@ def run_script(peer, script, tail=3):
             proxy("close")()
         except Exception:
             pass
+    settle(peer)
+    # attribute the consumed actions to the calls by the token each request carried
+    for rec in records:
+        mine = [(a, t) for a, t in peer.consumed if t == rec["token"]]
+        rec["consumed"] = [a for a, _ in mine]
+        rec["consumed_tokens"] = [t for _, t in mine]
     return records, (tail_start if tail_start is not None else len(records)), host_handler
+
+
+def settle(peer, quiet=0.004, limit=0.2):
+    """Waits until the peer has consumed nothing new for `quiet` seconds"""
+    end = time.time() + limit
+    last = len(peer.consumed)
+    t_last = time.time()
+    while time.time() < end:
+        time.sleep(0.001)
+        n = len(peer.consumed)
+        if n != last:
+            last, t_last = n, time.time()
+        elif time.time() - t_last >= quiet:
+            return
 
 
 def check_script(family, script):
@@ -255,6 +291,13 @@ def check_script(family, script):
     if any(r["outcome"] == "hang" for r in records):
         raise Skip()
     sent = set(r["token"] for r in records)
+    # A non-200 reply without Content-Length on a kept-alive connection is not drained by the
+    # transport: the exchange that follows it may fail on its own account (that is the "one
+    # further call" the statement allows), whatever the peer answered to it.
+    poisoned = set()
+    for i, r in enumerate(records[:-1]):
+        if r["outcome"] == "raised" and r["consumed"] and r["consumed"][-1] in UNDRAINED:
+            poisoned.add(i + 1)
     for i, r in enumerate(records):
         if r["outcome"] == "returned":
             if r["value"] != r["token"]:
@@ -266,6 +309,10 @@ def check_script(family, script):
         else:
             ex = r["exc"]
             last = r["consumed"][-1] if r["consumed"] else None
+            if isinstance(ex, J.TransportError) and last in STATUS and ex.errcode != STATUS[last]:
+                fail("C19/transport-error-fields", "TransportError.errcode is %r for status %d" % (ex.errcode, STATUS[last]))
+            if i in poisoned:
+                continue
             if last in STATUS:
                 if not isinstance(ex, J.TransportError):
                     fail("C19/status-not-transport-error", "HTTP status %d surfaced as %s: %s" % (STATUS[last], type(ex).__name__, ex), {"records": summarize(records)})
@@ -282,7 +329,7 @@ def check_script(family, script):
     if records and records[-1]["outcome"] != "returned":
         fail("C19/no-recovery", "the last healthy call failed (script %r)" % (list(script),), {"records": summarize(records)})
     kinds = set(a for a in script if a not in HEALTHY)
-    kept_alive_fault = any(script[i] not in HEALTHY and script[i] != "refuse" and script[i - 1] in ("ok_ka", "st_cl", "empty200", "nonjson") for i in range(1, len(script)))
+    kept_alive_fault = any(script[i] not in HEALTHY and script[i] != "refuse" and script[i - 1] in ("ok_ka", "st_cl", "empty200", "nonjson", "st_202_body", "st_204_ka", "st_304_ka", "st_chunked") for i in range(1, len(script)))
     nt = len(kinds) >= 2 or kept_alive_fault
     classes = ["family:" + family, "len:%d" % len(script)] + sorted("fault:" + k for k in kinds)
     if kept_alive_fault:
